@@ -9,6 +9,7 @@ A *check* is a module ``mc.cNN`` exposing
 Every violation carries ``(case, params)`` so that ``python -m mc.replay <file>`` can re-evaluate
 exactly that case with plain API calls and no explorer.
 """
+import copy
 import hashlib
 import json
 import multiprocessing as mp
@@ -78,6 +79,8 @@ class Part:
         # keep memory bounded under a mutant that breaks everything
         self.count("violations_raw")
         if len(self.violations) < 200:
+            if isinstance(params, dict):  # keys starting with '_' are harness scratch
+                params = {k: v for k, v in params.items() if not str(k).startswith("_")}
             self.violations.append(dict(signature=signature, what=what, case=case,
                                         params=jsonable(params)))
 
@@ -167,7 +170,7 @@ class Ctx(Part):
         confirmed = []
         for sig, vs in new:
             v = vs[0]
-            res = module.CASES[v["case"]](v["params"])
+            res = module.CASES[v["case"]](copy.deepcopy(v["params"]))
             sigs = [s for s, _ in res]
             if sig not in sigs:
                 raise HarnessError(
